@@ -122,3 +122,15 @@ func vfRunVsPeer(underTestIsClient bool, ucfg, pcfg *Config, peer func(pc *Conn)
 	r.UState = u.ConnectionState()
 	return r
 }
+
+// vfPeerPending waits until the endpoint under test has processed everything the peer sent and
+// reports whether it has written something the peer has not read yet.
+func vfPeerPending(pc *Conn) bool {
+	if pc.rawInput.Len() > 0 || pc.hand.Len() > 0 {
+		return true
+	}
+	e := pc.conn.(*vfStreamEnd)
+	return e.s.settle(e.idx)
+}
+
+func vfPeerTuneConfig(cfg *Config) {}
